@@ -1,5 +1,5 @@
 SPECIFICATION Spec
-CONSTANTS Repaired = {}
+CONSTANTS Repaired = {7, 9}
 INVARIANTS Judge
 POSTCONDITION AllConsumed
 CHECK_DEADLOCK FALSE
